@@ -205,6 +205,11 @@ class Gen:
         if r < 0.82:
             self.count('delete')
             return [kw('DELETE'), kw('FROM')] + self.ident() + ([kw('WHERE')] + self.cond(1) if self.r.random() < 0.7 else [])
+        if r < 0.85 and self.feat['ddl']:
+            self.count('create_table_as')
+            return [kw(self.r.choice(['CREATE', 'CREATE OR REPLACE'])), kw(self.r.choice(['TABLE', 'VIEW']))] + self.ident() + [kw('AS')] + \
+                ([kw('SELECT'), nm(self.r.choice(FUNCS)), pu('(', tight=True)] + self.ident() + [pu(')'), kw('FROM')] + self.ident()
+                 if self.r.random() < 0.6 else self.select(1))
         if r < 0.92 and self.feat['ddl']:
             self.count('create_table')
             cols = self.commalist(lambda: [nm(self.r.choice(IDENT)), nm(self.r.choice(TYPES))] +
